@@ -71,13 +71,15 @@ TRendered ==
      ELSE Viol("render", {[fmt |-> Rec.outs[i].fmt, err |-> Rec.outs[i].err, ok |-> Rec.outs[i].ok] : i \in {j \in 1..Len(Rec.outs) : ~(Rec.outs[j].ok /\ Rec.outs[j].wf)}})
   /\ l' = l + 1 /\ UNCHANGED <<cid, variant, feat, N, done>>
 
-\* the pint binary: must exit 0 or 1 within the deadline, without a Go panic
+\* the pint binary: Pipeline!BinOK on the recorded run
 TBin ==
   /\ l <= Len(TraceLog) /\ Rec.ev = "Bin"
-  /\ IF Rec.exit \in {0, 1} /\ ~Rec.panic /\ ~Rec.timeout THEN TRUE
-     ELSE PrintT(<<"VIOL", Rec.id, ToJson([what |-> IF Rec.timeout THEN "bin-hang" ELSE "bin-crash",
+  /\ IF BinOK(Rec) THEN TRUE
+     ELSE PrintT(<<"VIOL", Rec.id, ToJson([what |-> IF Rec.timeout THEN "bin-hang"
+                                                   ELSE IF Rec.panic \/ Rec.exit \notin {0, 1} THEN "bin-crash" ELSE "bin-output",
                                           variant |-> IF Rec.relaxed THEN "relaxed" ELSE "strict", feat |-> Rec.feat,
-                                          detail |-> [exit |-> Rec.exit, sig |-> Rec.sig]])>>)
+                                          detail |-> [exit |-> Rec.exit, sig |-> Rec.sig, flags |-> Rec.flags,
+                                                      json |-> Rec.json, checkstyle |-> Rec.checkstyle, teamcity |-> Rec.teamcity]])>>)
   /\ l' = l + 1 /\ UNCHANGED <<vars, cid, variant, feat, N, done>>
 
 \* anything the Pipeline machine has no action for here: Crash, Hang, or a stage out of order
